@@ -409,8 +409,9 @@ impl IsoDate {
             + (i64::from(duration.weeks.as_date_value()?) * 7);
         // 6. Let d be intermediate.[[Day]] + days.
         let intermediate_days = i64::from(intermediate.day) + additional_days;
-        // A day offset larger than the whole representable range can never land inside it.
-        if intermediate_days.abs() > 2 * (MAX_EPOCH_DAYS as i64 + 1) {
+        // A day offset larger than the whole representable range (plus the day of the
+        // month it is added to) can never land inside it.
+        if intermediate_days.abs() > 2 * i64::from(MAX_EPOCH_DAYS) + 31 {
             return Err(out_of_range());
         }
 
